@@ -394,10 +394,18 @@ namespace chaiscript {
           Boxed_Value retval;
 
           if (m_used_files.count(appendedpath) == 0) {
-            l2.unlock();
-            retval = eval_file(appendedpath);
-            l2.lock();
+            // marked before it is evaluated: a file that uses itself, directly or through another file,
+            // must not be evaluated again (and again) while its evaluation is in progress
             m_used_files.insert(appendedpath);
+            l2.unlock();
+            try {
+              retval = eval_file(appendedpath);
+            } catch (...) {
+              // a file that could not be loaded or evaluated has not been used
+              l2.lock();
+              m_used_files.erase(appendedpath);
+              throw;
+            }
           }
 
           return retval; // return, we loaded it, or it was already loaded
